@@ -140,7 +140,9 @@ func CheckdirCategory(dir CurrPath, recurse bool) {
 
 				fix := line.Autofix()
 				fix.Errorf("Package %q must be listed here.", fCurrent)
-				fix.InsertAbove("SUBDIR+=\t" + fCurrent.String())
+				if len(mRest) > 0 || !mlex.EOF() {
+					fix.InsertAbove("SUBDIR+=\t" + fCurrent.String())
+				}
 				fix.Apply()
 			}
 			fRest = fRest[1:]
